@@ -194,6 +194,12 @@ def _gen_stmt(tp, feat, r, routines, n_clocks):
             # library's lock busy meanwhile); logical time does not care
             return ['busy', tp.choice([0.01, 0.05, 0.2, 0.5])]
         if tp.draw(3) == 0:
+            if feat.get('cmsg') and tp.draw(3) == 0:
+                # a message that carries a bundle as its last argument (a
+                # completion bundle): stamped like any bundle sent there
+                return ['msg', tp.draw(100),
+                        ['B', tp.choice([0, 0.125, 0.2, 0.25, 1, None]),
+                         _gen_els(tp, 1)]]
             return ['msg', tp.draw(100)]
         if feat.get('bind') and tp.draw(3) == 0:
             # the same messages collected by a server bind() block: sent as
@@ -539,6 +545,11 @@ class Interp:
                 cc = self.clocks[self.prog['routines'][st[1]]['clock']]
                 self.event('resched', rid, st[1], st[2])
                 cc.sched_abs(cc.beats + st[2], r)
+        elif op == 'msg' and len(st) > 2:
+            self.send(rid, 'msg', None, [['M', st[1]]],
+                      lambda: self.addr.send_msg('/m', rid, st[1],
+                                                 mk_el(st[2], rid)),
+                      nested=st[2])
         elif op == 'msg':
             self.send(rid, 'msg', None, [['M', st[1]]],
                       lambda: self.addr.send_msg('/m', rid, st[1]))
@@ -706,12 +717,14 @@ class Interp:
             for m in msgs:
                 srv.addr.send_msg(*m)
 
-    def send(self, rid, kind, lat, els, fn):
+    def send(self, rid, kind, lat, els, fn, nested=None):
         main = self.main
         cur = main.current_tt
         rec = {'ev': 'send', 'r': rid, 'kind': kind, 'lat': lat, 'els': els,
                'secs': cur._seconds, 'now0': self.now(),
                'in_routine': cur is not main.main_tt}
+        if nested is not None:
+            rec['nested'] = nested
         n0 = len(self.net.captured) if self.net is not None else 0
         try:
             fn()
